@@ -54,6 +54,8 @@ class EngineTrace:
         self.scheduler = scheduler
         self.labels = []          # [(label string, snapshot string | None)]
         self.fine = []            # the same labels plus "acq w y" / "unl w" of remaining_pred_count_lock (fine model)
+        self.wake = []            # labels of the wake-up model (Model/EngineQ.lean): [kind, woken worker | None, label]
+        self.last_put = None      # the `put` entry whose `not_empty.notify()` has not run yet
         self.timeline = []        # labels and raw events interleaved, in real order
         self.events = []          # raw monitor events: ('begin', w, x) ('endok', w, x) ('endfail', w, x, exc)
         self.workers = []
@@ -175,6 +177,19 @@ class Sched:
             return
         tr.labels.append((label, self.snapshot(tr) if self.snapshots else None))
         tr.fine.append(label)
+        head = label.split(" ")[0]
+        if head == "get":
+            tr.wake.append(["take", None, label[4:]])
+        elif head in ("release", "putDone"):
+            tr.wake.append(["put", None, label])
+        elif head == "taskDone":
+            tr.wake.append(["taskDone", None, label[9:]])
+        elif head == "joinReturn":
+            tr.wake.append(["joinTake", None, ""])
+        elif head == "interrupt":
+            tr.wake.append(["interrupt", None, ""])
+        else:
+            tr.wake.append(["b", None, label])
         tr.timeline.append("L:" + label)
 
     def flush_pending(self, ts):
@@ -354,6 +369,12 @@ class CoopCondition:
                 if t.blocked == ("lock", self.lock):
                     t.blocked = None
             self.waiters.append(me)
+            tr = me.trace
+            if tr is not None:
+                if self.name == "not_empty" and me.widx is not None:
+                    tr.wake.append(["sleep", None, str(me.widx)])
+                elif self.name == "all_tasks_done" and me is s.main:
+                    tr.wake.append(["joinSleep", None, ""])
             s.block(("cond", self))
             if me in self.waiters:
                 self.waiters.remove(me)
@@ -375,6 +396,15 @@ class CoopCondition:
                 and not s.interrupted and s.begins >= s.interrupt_at)
 
     def notify(self, n=1):
+        if self.name == "not_empty":
+            s = _sched()
+            me = s.current() if s is not None else None
+            tr = (me.trace if me is not None else None) or (s.cur_trace if s is not None else None)
+            if tr is not None and tr.last_put is not None:
+                for t in self.waiters[:n]:
+                    if t.widx is not None:
+                        tr.last_put[1] = t.widx
+                tr.last_put = None
         for t in self.waiters[:n]:
             t.blocked = None
         del self.waiters[:n]
@@ -529,6 +559,7 @@ def _wrapped_create_queue(graph, initial_items, scheduler):
             q.unfinished_tasks += 1
             try:
                 s.emit("putDone", t)
+                t.last_put = t.wake[-1]
             finally:
                 q.unfinished_tasks -= 1
         elif me.widx is not None:
@@ -536,6 +567,7 @@ def _wrapped_create_queue(graph, initial_items, scheduler):
             q.unfinished_tasks += 1
             try:
                 s.emit("release %d %s" % (me.widx, t.nid(item)[1:]), t)
+                t.last_put = t.wake[-1]
             finally:
                 q.unfinished_tasks -= 1
             if "remaining_pred_count_lock" in me.holding:
